@@ -478,6 +478,7 @@ func iddictMain(args []string) int {
 	ns := fs.Int("sequential", 20, "sequential histories with flush / reopen")
 	ni := fs.Int("images", 3, "sequential histories with crash images inside the metadata flush")
 	ng := fs.Int("gated", 40, "gated scenarios (a goroutine parked inside get-or-create)")
+	nl := fs.Int("loop", 0, "index-loop histories (shard index event loop: rows / flush requests under gated schedules, crash, reopen)")
 	scratch := fs.String("scratch", "", "scratch directory")
 	_ = fs.Parse(args)
 	if *scratch == "" {
@@ -512,10 +513,21 @@ func iddictMain(args []string) int {
 		idSequential(rec, d, rand.New(rand.NewSource(rng.Int63())), h, h < *ni, &nimg)
 		os.RemoveAll(filepath.Dir(d))
 	}
+	// index-loop histories come last: the check addresses the other families by their position in the file
+	stuck, blocked := 0, 0
+	for h := 0; h < *nl; h++ {
+		d := filepath.Join(*scratch, fmt.Sprintf("l%d", h))
+		_ = os.MkdirAll(d, 0o755)
+		ilRun(rec, d, rand.New(rand.NewSource(rng.Int63())), h, &stuck, &blocked)
+		os.RemoveAll(d)
+	}
 	_ = rec.Close()
 	sum.Traces, sum.Events = rec.Counts()
 	sum.Distinct = sum.Traces
 	sum.Extra["images"] = nimg
+	sum.Extra["loop_histories"] = *nl
+	sum.Extra["loop_stuck"] = stuck
+	sum.Extra["loop_blocked"] = blocked
 	sum.Print()
 	return 0
 }
